@@ -395,6 +395,18 @@ fn run_oracle_script(dump: String, probes: Vec<String>, ops: Vec<Op>, tx: mpsc::
         let _ = tx.send(Some(format!("@{} {}", step, opname(op))));
         let r = guard(|| {
             let mut out: Vec<String> = vec![];
+            // for copies and moves: is the copied / moved element identifiable itself or a non-identifiable container?
+            // (the known classes "container duplicates paths" only concern containers)
+            let argkind = match op {
+                Op::Copy(_, x) | Op::CopyAt(_, x, _) | Op::Move(_, x) | Op::MoveAt(_, x, _) => {
+                    match ex.handles.get(*x) {
+                        Some(e) if e.is_identifiable() => " arg=identifiable",
+                        Some(_) => " arg=container",
+                        None => " arg=unknown",
+                    }
+                }
+                _ => "",
+            };
             let before_full = full_digest(&ex);
             let before_lines = full_lines(&ex);
             let before_live = live_digest(&ex);
@@ -463,7 +475,7 @@ fn run_oracle_script(dump: String, probes: Vec<String>, ops: Vec<Op>, tx: mpsc::
             let mut fails = vec![];
             check_state(&ex, &mut fails);
             for (p, k, d) in fails {
-                out.push(format!("FAIL {} step={} op={} kind={} {}", p, step, opname(op), k, d));
+                out.push(format!("FAIL {} step={} op={} kind={} {}{}", p, step, opname(op), k, d, argkind));
             }
             (out, false)
         });
